@@ -20,7 +20,7 @@ import onnx
 from harness import buildlib as B
 from harness.common import Run
 
-CONE = ["Base.v", "IR.v", "Show.v", "Build.v", "Sem.v", "Plan.v", "Named.v", "Validate.v", "BuildFacts.v", "SemFacts.v", "DfsFacts.v"]
+CONE = ["Base.v", "IR.v", "Show.v", "Build.v", "Sem.v", "Plan.v", "Named.v", "Validate.v", "BuildFacts.v", "SemFacts.v", "DfsFacts.v", "ScopeFacts.v", "EmitFacts.v"]
 PROPS = "props/C04.v"
 F32 = np.float32
 op = B.op17
@@ -294,6 +294,16 @@ def run(run: Run) -> int:
         ins, outs = g.program()
         cases.append(B.Case(ins, outs, False, {"random": True}))
     mism = B.correspondence(run, "c04", cases)
+    # non-vacuity of the validator-free emission theorem: its premises (duplicate-free traversal, no graph twice in the graph
+    # tree) evaluated by the model on every program that builds
+    built = [c for c in cases if c.coq is not None and c.model_proto is not None]
+    prem = B.emission_premises(run, "c04prem", [c.coq for c in built])
+    n_prem = sum(prem)
+    for c, ok in zip(built, prem):
+        if not ok:
+            run.fail("corr", "C04/emission-premises-not-met", "a program that builds does not satisfy the premises of "
+                     "C04_build_main_emits_at_most_once (duplicate-free traversal order, no graph twice in the graph tree)", B.describe(c))
+            break
     out_hist = collections.Counter()
     n_bad = 0
     distinct = set()
@@ -326,6 +336,7 @@ def run(run: Run) -> int:
         "exhaustive": True, "exhaustive_family_size": n_skel,
         "traces_validated_against_impl": len([c for c in cases if c.coq is not None]) - len(mism),
         "disagreements_checked": len(mism), "direct_oracle_failures": n_bad,
+        "emission_theorem_premises_met": f"{n_prem} of {len(built)} programs that build",
         "input_distribution": {"outcomes": dict(out_hist), "operators_random_part": g.hist},
         "samples": [B.describe(c) for c in (cases[0], cases[n_skel // 2], cases[-1])],
     }
